@@ -315,4 +315,26 @@ def normalize (g : List Rat) : List Rat := g.map (fun x => x / sumQ g)
     `mean + t * sd` with `t` the Student-t draw and `sd` the value of the square root (both parameters) -/
 def thompsonReward (c : Cell) (t sd : Rat) : Rat := if c.n < 2 then c.mean else c.mean + t * sd
 
+
+/-- parameters of the Dirichlet posterior of a row: the visit counts plus the Jeffreys prior 1/2
+    (`getVisitsTable(a).row(s).array().cast<double>() + 0.5`, `getVisits(s,a,s1) + 0.5`) -/
+def dirichletParams (cnt : List Nat) : List Rat := cnt.map (fun (c : Nat) => (c : Rat) + 1 / 2)
+
+/-- the Student-t posterior of the mean reward that `sync` draws from when `visits >= 2`:
+    location `mean`, squared scale `M2 / (visits * (visits - 1))`, `visits - 1` degrees of freedom -/
+structure TPost where
+  loc : Rat
+  scale2 : Rat
+  dof : Nat
+  deriving Repr, BEq, Inhabited
+
+def thompsonPost (c : Cell) : Option TPost :=
+  if c.n < 2 then none
+  else some { loc := c.mean, scale2 := c.m2 / (((c.n * (c.n - 1) : Nat)) : Rat), dof := c.n - 1 }
+
+/-- `ThompsonModel::sync(s,a)` / `CooperativeThompsonModel::syncRow` as a function of the engine's outputs:
+    `gs` the gamma draws (one per next state, in order), `t` the Student-t draw, `sd` the value of the square root -/
+def Pair.thompsonSync (p : Pair) (gs : List Rat) (t sd : Rat) : Pair :=
+  { p with row := normalize gs, rew := thompsonReward p.cell t sd }
+
 end AITB.Exp
